@@ -220,6 +220,7 @@ func AcyclicTraverseNodes(tx graph.Transaction, plan TraversalPlan, nodeFilter N
 		nodes         = graph.NewNodeSet()
 		descentFilter = plan.DescentFilter
 		visitedBitmap = cardinality.NewBitmap64()
+		testedBitmap  = cardinality.NewBitmap64()
 	)
 
 	// Prevent expansion of already-visited nodes
@@ -227,14 +228,21 @@ func AcyclicTraverseNodes(tx graph.Transaction, plan TraversalPlan, nodeFilter N
 		return visitedBitmap.CheckedAdd(segment.Node.ID.Uint64())
 	}
 
+	// The root node is tested below and does not count against the skip and limit of the traversal
+	testedBitmap.Add(plan.Root.ID.Uint64())
+
 	// Wrap our descent filter so we can test candidates
 	plan.DescentFilter = func(ctx *TraversalContext, segment *graph.PathSegment) bool {
 		if descentFilter != nil && !descentFilter(ctx, segment) {
 			return false
 		}
 
-		if (nodeFilter == nil || nodeFilter(segment.Node)) && ctx.LimitSkipTracker.ShouldCollect() {
-			nodes.Add(segment.Node)
+		// A node that is reached over more than one path is a candidate only once. Testing it again would
+		// spend the skip and limit of the traversal on a node that was already counted.
+		if testedBitmap.CheckedAdd(segment.Node.ID.Uint64()) {
+			if (nodeFilter == nil || nodeFilter(segment.Node)) && ctx.LimitSkipTracker.ShouldCollect() {
+				nodes.Add(segment.Node)
+			}
 		}
 
 		return true
